@@ -146,6 +146,15 @@ class C17(Prop):
             for order in orders:
                 opts = [[k, vals[k]] if k in NEEDS_VALUE else [k] for k in order]
                 yield {"seqs": [{"schema": "s", "name": "sq", "opts": opts}], "context": 3, "layout": None}
+        # every realistic identifier (names that start / end with a grammar keyword, words of unsupported statements) as an
+        # unqualified sequence name and as a schema, in three letter cases
+        for i, w in enumerate(gen.REALISTIC_NAMES):
+            for form in (w, w.capitalize(), w.upper()):
+                if form.startswith("ARRAY"):
+                    continue  # the lexer types every word that starts with upper-case ARRAY as the ARRAY constructor
+                opts = [["start", i], ["cache_n", 3]] if i % 2 else [["increment_by", i + 1], ["noorder"]]
+                yield {"seqs": [{"schema": None, "name": form, "opts": opts}], "context": i % 4, "layout": None}
+                yield {"seqs": [{"schema": form, "name": "sq", "opts": opts}], "context": i % 4, "layout": None}
 
     def fixed_cases(self):
         return [
